@@ -291,6 +291,93 @@ def part_d(rep, hbin, tier, seed, cov):
     return 1, (1 if ok else 0)
 
 
+def _coq_rows(out):
+    """Parse the `Eval vm_compute` blocks of a *Diag.v output into Python lists (N/nat suffixes stripped)."""
+    import ast
+    rows = []
+    for blk in re.findall(r"=\s*(\[.*?\])\s*:\s*list", out, flags=re.S):
+        txt = re.sub(r"%(N|nat)", "", blk).replace(";", ",")
+        txt = txt.replace("true", "True").replace("false", "False")
+        try:
+            rows.append(ast.literal_eval(re.sub(r"\s+", " ", txt)))
+        except Exception:
+            rows.append([])
+    return rows
+
+
+def part_e(rep, hbin, tier, seed, cov):
+    """Policy text layer (Display / FromTree of policy::Concrete and policy::Semantic): real code vs PolTextModel, inside Coq."""
+    tdir = os.path.join(vlib.COQ, "Tables")
+    p = vlib.sh([hbin, "poltext", str(seed), tier], env={"VERIF_TIER": tier}, timeout=3000)
+    if p.returncode != 0:
+        raise RuntimeError("poltext engine failed: %s" % p.stderr[-2000:])
+    open(os.path.join(tdir, "PolTextCasesGen.v"), "w").write(p.stdout)
+    m = re.search(r"POLTEXT cases=(\d+) cvals=(\d+) svals=(\d+) cval_reparse_equal=(\d+) sval_reparse_equal=(\d+) "
+                  r"kinds=(\{.*?\}) conc_outcomes=(\{.*?\}) sem_outcomes=(\{.*?\})", p.stderr)
+    cov["policy_text_layer"] = {
+        "text_cases": int(m.group(1)) if m else 0,
+        "concrete_values_built_with_enum_constructors": int(m.group(2)) if m else 0,
+        "semantic_values_built_with_enum_constructors": int(m.group(3)) if m else 0,
+        "concrete_values_whose_printed_form_reparses_equal": int(m.group(4)) if m else 0,
+        "semantic_values_whose_printed_form_reparses_equal": int(m.group(5)) if m else 0,
+        "kinds": json.loads(m.group(6)) if m else {},
+        "concrete_outcomes[ok, errN = error class (50 = expression-tree error)]": json.loads(m.group(7)) if m else {},
+        "semantic_outcomes": json.loads(m.group(8)) if m else {},
+        "values_not_reparsing(sample)": re.findall(r"POLTEXTNOREPARSE (.*)", p.stderr)[:8]}
+    cov.setdefault("samples", []).extend(re.findall(r"POLTEXTSAMPLE (.*)", p.stderr)[:4])
+    obligations, discharged = 2, 0
+    # statements file of the policy text layer (the coordinator registers it on merge)
+    t2, b2, pr2, _ = vlib.check_property_file("C10PolText")
+    cov["policy_text_theorems"] = t2
+    cov["policy_text_print_assumptions"] = [("closed" if b["closed"] else ",".join(b["axioms"])) for b in b2]
+    if pr2:
+        rep.violation("property-file", "; ".join(pr2),
+                      {"property": PID, "broken_tie": "Properties/C10PolText.v", "problems": pr2}, False)
+    else:
+        discharged += 1
+    for f in ("Tables/PolTextCasesGen.v", "Tables/PolTextCasesDefs.v"):
+        c = vlib.coqc(f)
+        if c.returncode != 0:
+            raise RuntimeError("%s does not compile: %s" % (f, (c.stderr or c.stdout)[-1500:]))
+    c2 = vlib.coqc("Tables/PolTextCasesCheck.v")
+    if c2.returncode == 0:
+        return obligations, discharged + 1
+    c3 = vlib.coqc("Tables/PolTextCasesDiag.v")
+    rows = _coq_rows(c3.stdout) if c3.returncode == 0 else []
+    tdiff, cdiff, sdiff = (rows + [[], [], []])[:3]
+    diffs, cand = [], []
+    for (i, text, io, mo, iso, mso) in tdiff:
+        t = _bytes_str(text)
+        diffs.append({"index": i, "input": t, "implementation_concrete": list(io), "model_concrete": list(mo),
+                      "implementation_semantic": list(iso), "model_semantic": list(mso)})
+        cand.append(t)
+    for name, dl in (("concrete", cdiff), ("semantic", sdiff)):
+        for (i, mtext, itext, flag) in dl:
+            diffs.append({"value_index": i, "type": name, "model_printed": _bytes_str(mtext), "implementation_printed": _bytes_str(itext),
+                          "implementation_reparse_equal": flag})
+            cand.append(_bytes_str(itext))
+    # judge with the specification side: the round trip itself, on the real code
+    fail = None
+    if cand:
+        os.makedirs(vlib.WORK, exist_ok=True)
+        tmp = os.path.join(vlib.WORK, "c10-poltext-replay.txt")
+        open(tmp, "w").write("".join(t + "\n" for t in cand if "\n" not in t))
+        q = vlib.sh([hbin, "poltext", "rtfile", tmp], timeout=600)
+        for ty, verdict, line in re.findall(r"^POLRT (\S+) (FAIL .*?|OK|REJECTED) (.*)$", q.stdout, flags=re.M):
+            if verdict.startswith("FAIL"):
+                fail = (ty, verdict, line)
+                break
+    if fail:
+        rep.violation("poltext-rt", "policy text round trip fails on the real code (%s policy): %r: %s" % (fail[0], fail[2][:300], fail[1][:300]),
+                      {"property": PID, "part": "policy-round-trip", "key": "poltext-rt", "poltext_line": fail[2], "type": fail[0],
+                       "verdict": fail[1], "differences": diffs[:12], "seed": seed, "tier": tier}, True)
+    else:
+        rep.violation("poltext-tie", "policy text model and parser/printer differ: %s" % json.dumps(diffs[:1])[:500],
+                      {"property": PID, "part": "policy-text", "broken_tie": "poltext_cases_match_model (Tables/PolTextCasesCheck.v)",
+                       "differences": diffs[:12], "log": (c2.stderr or c2.stdout)[-500:] if not diffs else ""}, False)
+    return obligations, discharged
+
+
 RT_REPLAY_KIND = {"miniscript/bare": "ms-bare", "miniscript/legacy": "ms-legacy", "miniscript/segwitv0": "ms-segwit",
                   "miniscript/tap": "ms-tap"}
 
@@ -388,8 +475,32 @@ def replay_file(rep, hbin, tier, path):
     return False
 
 
+def _replay_poltext(rep, hbin, replay):
+    try:
+        obj = json.load(open(replay))
+    except Exception:
+        return False
+    if "poltext_line" not in obj:
+        return False
+    os.makedirs(vlib.WORK, exist_ok=True)
+    tmp = os.path.join(vlib.WORK, "c10-poltext-replay.txt")
+    open(tmp, "w").write(obj["poltext_line"] + "\n")
+    q = vlib.sh([hbin, "poltext", "rtfile", tmp], timeout=600)
+    for ty, verdict, line in re.findall(r"^POLRT (\S+) (FAIL .*?|OK|REJECTED) (.*)$", q.stdout, flags=re.M):
+        if verdict.startswith("FAIL"):
+            rep.violation("poltext-rt", "policy text round trip fails on the real code (%s policy): %r: %s" % (ty, line[:300], verdict[:300]),
+                          dict(obj), True)
+            break
+    rep.coverage.update({"obligations": 1, "discharged": 1, "evaluations": 1, "distinct_nontrivial": 1,
+                         "rule": "replay of one recorded input", "samples": [obj["poltext_line"][:200]],
+                         "checker_cmd": "verif-harness poltext rtfile <replay>", "trusted_base": vlib.TRUSTED_BASE_COMMON})
+    return True
+
+
 def run(rep, tier, seed, replay):
     hbin = vlib.build_harness()
+    if replay and _replay_poltext(rep, hbin, replay):
+        return
     if replay:
         if replay_file(rep, hbin, tier, replay):
             return
@@ -411,18 +522,24 @@ def run(rep, tier, seed, replay):
     o, d = part_d(rep, hbin, tier, seed, cov)
     obligations += o
     discharged += d
+    o, d = part_e(rep, hbin, tier, seed, cov)
+    obligations += o
+    discharged += d
     rt_total, rt_fail = part_c(rep, hbin, tier, seed, cov)
     camp = cov.get("substitution_campaign", {})
     tab = cov.get("checksum_tables", {})
     evaluations = (tab.get("single_chars", 0) + tab.get("two_char_strings", 0) + tab.get("random_strings", 0) + tab.get("verify_cases", 0)
                    + camp.get("single_substitutions_all_positions_x_all_characters", 0) + camp.get("double_substitutions", 0)
                    + camp.get("in_group0_3or4_substitutions", 0) + camp.get("collision_sweep_checksums", 0)
-                   + cov.get("expression_tree", {}).get("cases", 0) + cov.get("miniscript_text_layer", {}).get("cases", 0) + rt_total)
+                   + cov.get("expression_tree", {}).get("cases", 0) + cov.get("miniscript_text_layer", {}).get("cases", 0) + rt_total
+                   + sum(cov.get("policy_text_layer", {}).get(k, 0) for k in ("text_cases", "concrete_values_built_with_enum_constructors",
+                                                                              "semantic_values_built_with_enum_constructors")))
     rep.coverage.update(cov)
     rep.coverage.update({
         "obligations": obligations, "discharged": discharged,
         "checker_cmd": "make -C coq ; coqc Properties/C10.v ; verif-harness text cktab | coqc Tables/ChecksumTables{Gen,Defs,Check}.v ; verif-harness text cksub ; "
-                       "verif-harness text mstext | coqc Tables/MsTextCases{Gen,Defs,Check}.v",
+                       "verif-harness text mstext | coqc Tables/MsTextCases{Gen,Defs,Check}.v ; "
+                       "coqc Properties/C10PolText.v ; verif-harness poltext | coqc Tables/PolTextCases{Gen,Defs,Check}.v",
         "trusted_base": vlib.TRUSTED_BASE_COMMON + [
             "bech32 0.11.1 primitives::checksum::Engine is modelled (input_fe, mul_by_x_then_add, unpack), tied by the tables",
             "Uint63 primitive integers (table transport only, evaluated by vm_compute; no axioms used)",
@@ -444,7 +561,10 @@ def run(rep, tier, seed, replay):
                                   "proof (print-parse, fixed point, alias meaning; keys/hashes opaque, from_ast an arbitrary check) + tie in Coq",
                               "printers/parsers of descriptor, key, policy, wallet policy; miniscript context rules (Part C)":
                                   "correspondence/oracle only: differential round trips on the real code, not modelled in Coq"}
+    rep.coverage["levels"]["policy text layer: Display / from_tree of policy::Concrete and policy::Semantic (Part E)"] = \
+        "proof (print-parse, parse-valid, fixed point, text-level round trip; keys/hashes opaque) + tie in Coq"
     rep.assumptions = [
+        "PolTextModel.v transcribes Display and FromTree of policy::concrete::Policy / policy::semantic::Policy (tied on every run by Tables/PolTextCasesCheck.v, String keys)",
         "ChecksumModel.v transcribes checksum.rs and the bech32 engine it instantiates (tied on every run by the complete 1-/2-character tables and random strings)",
         "the BIP-380 reference algorithm in ChecksumModel.v (bip380_*) is a transcription of the BIP's Python",
         "MsTextModel.v transcribes display.rs (as_node, fragment_name, conditional_fmt) and Miniscript::from_tree with the expression helpers it calls (tied on every run by Tables/MsTextCasesCheck.v)",
